@@ -51,8 +51,8 @@ func pickPool(r *rand.Rand, n int, strs, times bool) []VarSpec {
 	// selector variables travel with the variables that use them
 	for _, v := range pool {
 		switch v.Class {
-		case "slice-var", "slice-ptr":
-			if v.Text == "F.Arr[F.Idx]" || v.Text == "F.PArr[F.Idx].X" {
+		case "slice-var", "slice-ptr", "slice-expr", "map-expr":
+			if v.Text == "F.Arr[F.Idx]" || v.Text == "F.PArr[F.Idx].X" || v.Class == "slice-expr" || v.Class == "map-expr" {
 				for _, c := range catalog {
 					if c.Text == "F.Idx" && r.Intn(2) == 0 {
 						add(c)
@@ -79,6 +79,7 @@ func aliasPartners(r *rand.Rand, pool []VarSpec) []VarSpec {
 		"F.Arr[0]": "F.Arr[F.Idx]", "F.Arr[1]": "F.Arr[F.Idx]", "F.Arr[F.Idx]": "F.Arr[0]",
 		`F.M["k1"]`: "F.M[F.Key]", `F.M["k2"]`: "F.M[F.Key]", "F.M[F.Key]": `F.M["k1"]`,
 		"F.PArr[0].X": "F.PArr[F.Idx].X", "F.PArr[F.Idx].X": "F.PArr[0].X",
+		"F.Arr[F.Idx + 1]": "F.Arr[1]", "F.Idx": "F.Arr[F.Idx + 1]", `F.M["k" + (F.Idx + 1)]`: `F.M["k1"]`,
 	}
 	have := map[string]bool{}
 	for _, v := range pool {
